@@ -294,6 +294,11 @@ func init() {
 				e1runSP("list-live-n2-d3-2restores", "list", 2, 3, "", o, 2, 0, "live"), // a restored replica is exported and restored again
 				e1runSP("doc-live-n2-d2-2restores", "doc", 2, 2, "", o, 2, 0, "live"),
 				e1runS("counter-n2-d4-3restores", "counter", 2, 4, "", o, 3, 0),
+				// a restored replica runs a failing transaction: its rollback is a second import, of what it exported itself
+				e1runSP("map-live-n2-d3-tx-restore", "map", 2, 3, "tx", append([]string{"tx"}, o...), 2, 0, "live"),
+				e1runSP("list-live-n2-d2-tx-restore", "list", 2, 2, "tx", append([]string{"tx"}, o...), 2, 0, "live"),
+				e1runSP("doc-live-n2-d2-tx-restore", "doc", 2, 2, "tx", append([]string{"tx"}, o...), 2, 0, "live"),
+				e1runS("counter-n2-d3-tx-restore", "counter", 2, 3, "tx", append([]string{"tx"}, o...), 2, 0),
 			}
 		} else {
 			p.BudgetS = 3300
@@ -307,6 +312,10 @@ func init() {
 				e1runS("list-n3-d4", "list", 3, 4, "", o, 1, 600000),
 				e1runS("doc-n2-d5", "doc", 2, 5, "", o, 1, 600000),
 				e1runS("doc-rich-n2-d4", "doc", 2, 4, "rich", o, 1, 600000),
+				e1runSP("map-live-n2-d4-tx-restore", "map", 2, 4, "tx", append([]string{"tx"}, o...), 2, 600000, "live"),
+				e1runSP("list-live-n2-d3-tx-restore", "list", 2, 3, "tx", append([]string{"tx"}, o...), 2, 600000, "live"),
+				e1runSP("doc-live-n2-d3-tx-restore", "doc", 2, 3, "tx", append([]string{"tx"}, o...), 2, 600000, "live"),
+				e1runS("counter-n2-d5-tx-restore", "counter", 2, 5, "tx", append([]string{"tx"}, o...), 2, 600000),
 			}
 		}
 		return p
